@@ -174,7 +174,7 @@ class FilterSuite(Suite):
     chk = "chk13f"
     runf = "run13f"
     deterministic = True
-    rule = ("proteinGroups files with 0-10 rows, q-values around the cutoff incl. exactly equal, cells with separators, Q-value column at "
+    rule = ("proteinGroups files with 0-10 rows, q-values around the cutoff incl. exactly equal, nan (an unset q-value) and inf, a nan cutoff, cells with separators, Q-value column at "
             "varying positions; cutoffs 0.01/0.05/1; non-trivial = a kept and a dropped row")
 
     def gen(self, rng, tier):
@@ -182,11 +182,11 @@ class FilterSuite(Suite):
             qpos = rng.randint(0, 3)
             header = ["A", "B", "C", "D"]
             header[qpos] = "Q-value"
-            cutoff = rng.choice([0.01, 0.05, 1.0])
+            cutoff = rng.choice([0.01, 0.05, 1.0, 0.01, 0.05, 1.0, float("nan")])
             rows = []
             for _ in range(rng.randint(0, 10)):
                 r = [rng.choice(["P1;P2", "x\ty", 'q"q', "", "7"]) for _ in range(4)]
-                r[qpos] = rng.choice([repr(cutoff), "0.0", "0.5", "1e-05", repr(cutoff * 1.0000001), "0.010", "1"])
+                r[qpos] = rng.choice([repr(cutoff), "0.0", "0.5", "1e-05", repr(cutoff * 1.0000001), "0.010", "1", "nan", "inf"])    # (an unset q-value is written as nan)
                 rows.append(r)
             yield {"header": header, "rows": rows, "cutoff": cutoff}
 
